@@ -6,6 +6,7 @@
 
 #include "../common/equals.h"
 #include "vector.h"
+#include "../common/verif_hooks.h"
 
 template <typename T>
 bool equals(const Vector<T>& lhs, const Vector<T>& rhs)
@@ -29,6 +30,7 @@ void assign(Vector<T>& lhs, const T& value)
     std::size_t n = lhs.size();
 #pragma omp parallel for if (n > 10'000)
     for (std::size_t i = 0; i < n; ++i) {
+        VERIF_ITER(i);
         lhs[i] = value;
     }
 }
@@ -42,6 +44,7 @@ void add(Vector<T>& result, const Vector<T>& x)
     std::size_t n = result.size();
 #pragma omp parallel for if (n > 10'000)
     for (std::size_t i = 0; i < n; ++i) {
+        VERIF_ITER(i);
         result[i] += x[i];
     }
 }
@@ -55,6 +58,7 @@ void add(Vector<T>& result, const Vector<T>& x, const int m)
     std::size_t n = result.size();
 #pragma omp parallel for if (n > m)
     for (std::size_t i = 0; i < n; ++i) {
+        VERIF_ITER(i);
         result[i] += x[i];
     }
 }
@@ -68,6 +72,7 @@ void subtract(Vector<T>& result, const Vector<T>& x)
     std::size_t n = result.size();
 #pragma omp parallel for if (n > 10'000)
     for (std::size_t i = 0; i < n; ++i) {
+        VERIF_ITER(i);
         result[i] -= x[i];
     }
 }
@@ -81,6 +86,7 @@ void linear_combination(Vector<T>& x, const T& alpha, const Vector<T>& y, const 
     std::size_t n = x.size();
 #pragma omp parallel for if (n > 10'000)
     for (std::size_t i = 0; i < n; ++i) {
+        VERIF_ITER(i);
         x[i] = alpha * x[i] + beta * y[i];
     }
 }
@@ -91,6 +97,7 @@ void multiply(Vector<T>& x, const T& alpha)
     std::size_t n = x.size();
 #pragma omp parallel for if (n > 10'000)
     for (std::size_t i = 0; i < n; ++i) {
+        VERIF_ITER(i);
         x[i] *= alpha;
     }
 }
@@ -106,6 +113,7 @@ T dot_product(const Vector<T>& lhs, const Vector<T>& rhs)
     std::size_t n = lhs.size();
 #pragma omp parallel for reduction(+ : result) if (n > 10'000)
     for (std::size_t i = 0; i < n; ++i) {
+        VERIF_ITER(i);
         result += lhs[i] * rhs[i];
     }
     return result;
@@ -118,6 +126,7 @@ T l1_norm(const Vector<T>& x)
     std::size_t n = x.size();
 #pragma omp parallel for reduction(+ : result) if (n > 10'000)
     for (std::size_t i = 0; i < n; ++i) {
+        VERIF_ITER(i);
         result += std::abs(x[i]);
     }
     return result;
@@ -130,6 +139,7 @@ T l2_norm_squared(const Vector<T>& x)
     std::size_t n = x.size();
 #pragma omp parallel for reduction(+ : result) if (n > 10'000)
     for (std::size_t i = 0; i < n; ++i) {
+        VERIF_ITER(i);
         result += x[i] * x[i];
     }
     return result;
@@ -142,6 +152,7 @@ T infinity_norm(const Vector<T>& x)
     std::size_t n = x.size();
 #pragma omp parallel for reduction(max : result) if (n > 10'000)
     for (std::size_t i = 0; i < n; ++i) {
+        VERIF_ITER(i);
         T abs_value = std::abs(x[i]);
         if (abs_value > result) {
             result = abs_value;
